@@ -111,19 +111,19 @@ def make_recording_policy(C, log):
             RoundRobinPolicy.populate(self, cluster, hosts)
 
         def on_up(self, host):
-            log.append(('lbp_up', host.endpoint.address, host.datacenter, host.rack))
+            log.append(('lbp_up', host.endpoint.address, host.endpoint.port, host.datacenter, host.rack))
             RoundRobinPolicy.on_up(self, host)
 
         def on_down(self, host):
-            log.append(('lbp_down', host.endpoint.address, host.datacenter, host.rack))
+            log.append(('lbp_down', host.endpoint.address, host.endpoint.port, host.datacenter, host.rack))
             RoundRobinPolicy.on_down(self, host)
 
         def on_add(self, host):
-            log.append(('lbp_add', host.endpoint.address, host.datacenter, host.rack))
+            log.append(('lbp_add', host.endpoint.address, host.endpoint.port, host.datacenter, host.rack))
             RoundRobinPolicy.on_add(self, host)
 
         def on_remove(self, host):
-            log.append(('lbp_remove', host.endpoint.address, host.datacenter, host.rack))
+            log.append(('lbp_remove', host.endpoint.address, host.endpoint.port, host.datacenter, host.rack))
             RoundRobinPolicy.on_remove(self, host)
     return RecLBP()
 
@@ -133,16 +133,16 @@ def make_recording_listener(C, log):
 
     class RecListener(HostStateListener):
         def on_up(self, host):
-            log.append(('l_up', host.endpoint.address))
+            log.append(('l_up', host.endpoint.address, host.endpoint.port))
 
         def on_down(self, host):
-            log.append(('l_down', host.endpoint.address))
+            log.append(('l_down', host.endpoint.address, host.endpoint.port))
 
         def on_add(self, host):
-            log.append(('l_add', host.endpoint.address, host.datacenter, host.rack))
+            log.append(('l_add', host.endpoint.address, host.endpoint.port, host.datacenter, host.rack))
 
         def on_remove(self, host):
-            log.append(('l_remove', host.endpoint.address))
+            log.append(('l_remove', host.endpoint.address, host.endpoint.port))
     return RecListener()
 
 
@@ -153,9 +153,15 @@ def make_cluster(control_addr='10.0.0.100', log=None, **kw):
     from cassandra.connection import DefaultEndPoint
     log = [] if log is None else log
     lbp = make_recording_policy(C, log)
+    from cassandra.policies import RoundRobinPolicy
     prof = C.ExecutionProfile(load_balancing_policy=lbp)
-    cl = C.Cluster(contact_points=[DefaultEndPoint(control_addr)], execution_profiles={C.EXEC_PROFILE_DEFAULT: prof},
-                   protocol_version=4, **kw)
+    # the three built-in graph profiles would otherwise SHARE the default profile's policy object, and the profile manager
+    # notifies once per profile: give them their own policies so the recording policy hears each notification once
+    profiles = {C.EXEC_PROFILE_DEFAULT: prof,
+                C.EXEC_PROFILE_GRAPH_DEFAULT: C.GraphExecutionProfile(load_balancing_policy=RoundRobinPolicy()),
+                C.EXEC_PROFILE_GRAPH_SYSTEM_DEFAULT: C.GraphExecutionProfile(load_balancing_policy=RoundRobinPolicy()),
+                C.EXEC_PROFILE_GRAPH_ANALYTICS_DEFAULT: C.GraphAnalyticsExecutionProfile(load_balancing_policy=RoundRobinPolicy())}
+    cl = C.Cluster(contact_points=[DefaultEndPoint(control_addr)], execution_profiles=profiles, protocol_version=4, **kw)
     cl.scheduler.shutdown()          # joins the only thread Cluster.__init__ started
     cl.scheduler = RecScheduler()
     cl.executor.shutdown(wait=True)  # no worker thread was ever created
